@@ -6,12 +6,22 @@ import FlexModel.Ldm.Subs
 namespace FlexModel.Ldm
 open FlexModel.Proto
 
+/-- a callback's action as the line protocol carries it -/
+inductive DAct where
+  | raises
+  | unsub (app : Nat) (k : Option Nat)
+  | dereg (app : Nat)
+  deriving Inhabited
+
 structure DSt where
   ready : Bool := false
   cfg : Cfg := default
   uniqueIds : Bool := false
   s : SSt := default
   issued : List (SubReq × Nat) := []
+  /-- what the callbacks do when invoked (C14): callback id ↦ action; an unsubscribe names its target by the index of
+  the subscribe call (resolved when the callback runs) -/
+  acts : List (Nat × DAct) := []
   deriving Inhabited
 
 /-! ## parsing -/
@@ -184,10 +194,43 @@ def serCall (c : Call) : String :=
 def serSOut (o : SOut) : String :=
   " ".intercalate (serOut o.out :: o.calls.map serCall)
 
+/-- C12 `state` / `dump` line: `s n=<next id> p=<providers> c=<consumers> i=<row ids>` (+ ` {id record}…` for dump) -/
+def serState (s : St) (full : Bool) : String :=
+  let csv (xs : List Nat) : String := if xs.isEmpty then "-" else ",".intercalate (xs.map toString)
+  let sorted (xs : List Nat) : List Nat := xs.mergeSort (fun a b => decide (a ≤ b))
+  let head := s!"s n={s.db.next} p={csv (sorted s.providers)} c={csv (sorted s.consumers)} i={csv (s.db.rows.map (·.1))}"
+  if full then " ".intercalate (head :: s.db.rows.map (fun p => s!"{p.1}:" ++ p.2.ser)) else head
+
 /-! ## step -/
 
+/-- the behaviour of the callbacks at this point of the history -/
+def DSt.beta (d : DSt) (cb : Nat) : CbAct :=
+  match d.acts.find? (fun p => p.1 == cb) with
+  | none => .none
+  | some (_, .raises) => .raises
+  | some (_, .unsub app none) => .unsub app none
+  | some (_, .unsub app (some k)) => .unsub app d.issued[k]?
+  | some (_, .dereg app) => .dereg app
+
+/-- `-` none, `x` raises, `u<app>:<k>` / `u<app>:-` unsubscribe (k = index of the subscribe call), `d<app>` deregister -/
+def act? (s : String) : Option (Option DAct) :=
+  if s == "-" then some none
+  else if s == "x" then some (some .raises)
+  else match s.toList with
+    | 'd' :: t => (nat? (String.ofList t)).map (fun a => some (.dereg a))
+    | 'u' :: t =>
+      match (String.ofList t).splitOn ":" with
+      | [a, k] => do
+        let a ← nat? a
+        if k == "-" then pure (some (.unsub a none))
+        else do
+          let k ← nat? k
+          pure (some (.unsub a (some k)))
+      | _ => none
+    | _ => none
+
 def doOp (d : DSt) (op : SOp) : DSt × String :=
-  let (s1, o) := sstep d.cfg d.uniqueIds d.s op
+  let (s1, o) := sstep d.cfg d.uniqueIds d.beta d.s op
   ({ d with s := s1 }, serSOut o)
 
 def bool? : String → Option Bool
@@ -200,7 +243,7 @@ def ldmStep (d : DSt) (t : List String) : DSt × String :=
     | some utc, some mono, some lat, some lon, some alt, some rel, some af, some g, some u =>
       if rel ≤ 7 then
         ({ ready := true, cfg := { area := { lat := lat, lon := lon, alt := alt, relDist := rel }, areaFixed := af, gated := g },
-           uniqueIds := u, s := SSt.init utc mono, issued := [] }, "ok")
+           uniqueIds := u, s := SSt.init utc mono, issued := [], acts := [] }, "ok")
       else (d, "bad-op")
     | _, _, _, _, _, _, _, _, _ => (d, "bad-op")
   | _ =>
@@ -243,13 +286,21 @@ def ldmStep (d : DSt) (t : List String) : DSt × String :=
     | some q => (d, serReqOut (if4RequestTiny d.s.core.consumers (d.s.core.db.rows.map (·.2)) q))
     | none => (d, "bad-op")
   | ["gc"] => doOp d (.core .maintain)
+  -- C12: the state the clause theorems speak about (identifier counter, registries, row ids / rows), compared with
+  -- the real DictionaryDataBase and LDMService after every operation
+  | ["state"] => (d, serState d.s.core false)
+  | ["dump"] => (d, serState d.s.core true)
   | ["adv", ms] =>
     match nat? ms with
     | some ms => doOp d (.core (.advance ms))
     | none => (d, "bad-op")
-  | ["sub", cb, app, types, prio, filter, notify, mult, order] =>
-    match nat? cb, nat? app, csvNat? types, optInt? prio, filter? filter, optInt? notify, optInt? mult, order? order with
-    | some cb, some app, some types, some prio, some (fb, f), some notify, some mult, some (ob, o) =>
+  | "sub" :: cb :: app :: types :: prio :: filter :: notify :: mult :: order :: rest =>
+    let act : Option (Option DAct) := match rest with
+      | [] => some none
+      | [a] => act? a
+      | _ => none
+    match nat? cb, nat? app, csvNat? types, optInt? prio, filter? filter, optInt? notify, optInt? mult, order? order, act with
+    | some cb, some app, some types, some prio, some (fb, f), some notify, some mult, some (ob, o), some act =>
       let r : SubReq := { app := app, types := types, prio := prio, filterBad := fb, filter := f, notify := notify,
                           mult := mult, orderBad := ob, order := if ob then some [] else o }
       let (d1, out) := doOp d (.subscribe r cb)
@@ -259,9 +310,10 @@ def ldmStep (d : DSt) (t : List String) : DSt × String :=
           match d.issued.findIdx? (fun p => p.1 == r) with
           | some i => i
           | none => d.issued.length
-        ({ d1 with issued := d.issued ++ [(r, cb)] }, s!"c 0 {k}")
+        ({ d1 with issued := d.issued ++ [(r, cb)],
+                   acts := match act with | some a => d.acts ++ [(cb, a)] | none => d.acts }, s!"c 0 {k}")
       else (d1, out)
-    | _, _, _, _, _, _, _, _ => (d, "bad-op")
+    | _, _, _, _, _, _, _, _, _ => (d, "bad-op")
   | ["unsub", app, k] =>
     match nat? app with
     | some app =>
